@@ -39,7 +39,7 @@ RULE = ('Hypothesis: FileSpec (1-5 dims of length 1-5, 1-5 variables of rank '
         'sha1 of the case spec.')
 ASSUMPTIONS = ['numpy basic/take indexing is the reference for orthogonal '
                'selection', 'empty index lists are outside the domain']
-BUDGET = {'quick': dict(examples=3200, max_s=240),
+BUDGET = {'quick': dict(examples=4800, max_s=240),
           'thorough': dict(examples=100000, max_s=3000)}
 
 
